@@ -28,10 +28,15 @@
 #include "ref_list.h"
 
 static long h_budget = -1; /* < 0: unlimited */
+static int h_budget_exit = 0; /* run mode: a real pass cannot be left by longjmp: report and stop the harness */
 static jmp_buf h_jmp;
+static void h_pass_hang(void);
 static REF_STATUS h_list_contains(REF_LIST ref_list, REF_INT item, REF_BOOL *contains) {
   if (h_budget >= 0) {
-    if (0 == h_budget) longjmp(h_jmp, 1);
+    if (0 == h_budget) {
+      if (h_budget_exit) h_pass_hang();
+      longjmp(h_jmp, 1);
+    }
     h_budget--;
   }
   return ref_list_contains(ref_list, item, contains);
@@ -61,7 +66,14 @@ static REF_GLOB next_global;
 static int run_mode;
 
 #define NODE_LIMIT 200000
-#define HANG_BUDGET 1000000L
+#define HANG_BUDGET 300000L
+#define PASS_BUDGET 3000000L
+
+static void h_pass_hang(void) {
+  fputs("hang inside a pass: a while (keep_growing) loop of ref_cavity.c does not end\n", out);
+  fflush(out);
+  _exit(7);
+}
 
 static int is_op(const char *op, int nw) { return 0 == strcmp(h_w[0], op) && h_nw == nw; }
 
@@ -552,6 +564,8 @@ static void run_op(void) {
   wrap_on = 1;
   for (p = h_w[1]; *p && REF_SUCCESS == s; p++) {
     if ('v' == *p) fprintf(out, "pass begin %016llx\n", (unsigned long long)grid_hash(ref_grid));
+    h_budget = PASS_BUDGET;
+    h_budget_exit = 1;
     switch (*p) {
       case 'v': s = ref_cavity_pass(ref_grid); break;
       case 'c': s = ref_collapse_pass(ref_grid); break;
@@ -560,6 +574,8 @@ static void run_op(void) {
       case 'm': s = ref_smooth_pass(ref_grid); break;
       default: break;
     }
+    h_budget = -1;
+    h_budget_exit = 0;
     if ('v' == *p) fprintf(out, "pass end %016llx %s\n", (unsigned long long)grid_hash(ref_grid), h_status(s));
   }
   wrap_on = 0;
